@@ -466,6 +466,8 @@ def check(run):
     run.floor('C19-R4', 20, 'obligations')
     run.extra['elements'] = len(elements)
     run.extra['isotopes'] = len(isotopes)
+    from ..cachekey import check_caches
+    check_caches(run, [m_ for m_ in prog.modules.values() if not m_.name.endswith('#pxd')], 'C19-K', prog=prog)
 
 
 class _NoInterp(Exception):
